@@ -526,7 +526,9 @@ def r910(rep: Report, ctx: Ctx) -> None:
     """(= C11 R11.8)  The candidate window is computed from the bounds that
     ingestion tracked; a cleaning step that moves them shifts the window
     between the trim and the unique-graph search (seed C09-g)."""
-    rep.rule("R9.10", "only save_data moves the bounds the candidate window "
-             "is computed from (= C11 R11.8)", 1)
-    from .c11 import bounds_writers
-    bounds_writers(rep, ctx, "R9.10")
+    rep.rule("R9.10", "the bounds the candidate window is computed from are "
+             "min(start) / max(end) over every ingested span, and only "
+             "save_data moves them (= C11 R11.8)", 5)
+    from . import c11 as _c11
+    from .util import borrow
+    borrow(rep, ctx, _c11, "C11", "R11.8", "R9.10")
